@@ -542,6 +542,10 @@ def run(chk):
     chk.audit(PROPS)
     if chk.thorough and ok:
         chk.leanchecker([PROPS])
+    # the same claims for the C simulators: corollaries of C06's c_step_eq_python over the C handler bodies
+    # translated from c/csimulator.c on this run
+    import cgencheck
+    cgencheck.c_corollaries(chk, 'SkoolVerif.Props.C05C', bool(ok))
     spec_ok = True
     if not ok:
         # the specification itself does not depend on the generated files
